@@ -40,6 +40,53 @@ VERUS_PROPS = {
 }
 
 
+KANI_PROPS = {"C02", "C04", "C05", "C06", "C11", "C13", "C16"}
+KANI_TRUSTED = [
+    "Kani 0.68 / CBMC 6.11: MIR -> goto translation, IEEE-754 float model, the harness code in /verif/kani (asserted contracts, universal-probe closures, exact token format for serde)",
+    "libm functions are not modelled deterministically by CBMC: no Kani harness compares two calls of an elementary function",
+]
+
+
+def kani_route(pid, tier):
+    """harnesses of /verif/kani on the real crate (path dependency on VERIF_REPO); one obligation per harness"""
+    import subprocess
+    t0 = time.time()
+    cmd = [os.path.join(VERIF, "bin", "kani_check"), pid, "--tier", "thorough" if tier == "thorough" else "quick"]
+    p = subprocess.run(cmd, capture_output=True, text=True, env=dict(os.environ, VERIF_REPO=pl.REPO))
+    obs, rows, summary = [], [], None
+    for ln in p.stdout.splitlines():
+        ln = ln.strip()
+        if not ln.startswith("{"):
+            continue
+        try:
+            d = json.loads(ln)
+        except Exception:
+            continue
+        if "summary" in d:
+            summary = d["summary"]
+            continue
+        if "harness" not in d:
+            continue
+        rows.append(d)
+        st = {"pass": "discharged", "fail": "failed"}.get(d.get("status"), "undecided")
+        detail = ""
+        if st != "discharged":
+            detail = "failed CBMC checks:\n  " + "\n  ".join(d.get("failed_checks", [])[:20])
+            if d.get("counterexample"):
+                detail += "\nconcrete counterexample (kani --concrete-playback, replayed by re-running the harness on the real code):\n  " + json.dumps(d["counterexample"])[:3000]
+            if d.get("reason"):
+                detail += "\nreason: " + str(d["reason"])
+            detail += "\ncmd: " + str(d.get("cmd"))
+        o = pl.Obligation("kani", "harness", d["harness"], st, detail, [pid], d.get("what") or d.get("bound") or "Kani harness on the real code")
+        o.has_cex = bool(d.get("counterexample"))
+        obs.append(o)
+    if not rows:
+        raise Undecided("kani_check produced no harness results (rc=%d): %s" % (p.returncode, (p.stderr or p.stdout)[-600:]))
+    info = dict(harnesses=len(rows), wall_s=round(time.time() - t0, 1), cmd=" ".join(cmd), summary=summary,
+                rows=[dict(harness=r["harness"], status=r.get("status"), checks_total=r.get("checks_total"), time_s=r.get("time_s"), bound=r.get("bound")) for r in rows])
+    return obs, info
+
+
 def load_known():
     finds, fixed = [], []
     if os.path.exists(KNOWN):
@@ -178,13 +225,18 @@ def main(argv):
         return 0
     t0 = time.time()
     try:
-        if pid not in VERUS_PROPS:
+        if pid not in VERUS_PROPS and pid not in KANI_PROPS:
             print("UNDECIDED: no check registered for %s" % pid)
             return 2
-        obs, info, metas = verus_route(pid, tier)
-        lost = required_anchors(pid, metas)
-        if lost:
-            raise Undecided("lost anchors: " + ", ".join(lost))
+        obs, info, metas, kinfo = [], dict(units={}), {}, None
+        if pid in VERUS_PROPS:
+            obs, info, metas = verus_route(pid, tier)
+            lost = required_anchors(pid, metas)
+            if lost:
+                raise Undecided("lost anchors: " + ", ".join(lost))
+        if pid in KANI_PROPS and os.environ.get("VERIF_NO_KANI") != "1":
+            kobs, kinfo = kani_route(pid, tier)
+            obs = obs + kobs
     except Undecided as e:
         print("UNDECIDED property=%s: %s" % (pid, e))
         return 2
@@ -208,12 +260,15 @@ def main(argv):
         os.makedirs(os.path.join(pl.GEN, "replay"), exist_ok=True)
         replay_path = os.path.join(pl.GEN, "replay", "%s_%d.txt" % (pid, int(time.time())))
         with open(replay_path, "w") as f:
-            f.write("property %s: failed obligations (verifier: Verus; no counterexample model is produced by Verus)\n\n" % pid)
+            f.write("property %s: failed obligations (Verus produces no counterexample model; Kani harnesses carry the concrete playback values)\n\n" % pid)
             for o, _ in new_fail:
                 f.write("== obligation %s\n   what: %s\n   verifier output:\n%s\n" % (o.key(), o.what, o.detail))
         for o, _ in new_fail[:12]:
             print("FAILED-OBLIGATION property=%s %s :: %s" % (pid, o.key(), o.what))
-        print("VIOLATION property=%s replay=%s no-failing-input-found" % (pid, replay_path))
+        if any(getattr(o, "has_cex", False) for o, _ in new_fail):
+            print("VIOLATION property=%s replay=%s" % (pid, replay_path))
+        else:
+            print("VIOLATION property=%s replay=%s no-failing-input-found" % (pid, replay_path))
         rc = 1
     elif undecided:
         for o in undecided[:12]:
@@ -228,13 +283,15 @@ def main(argv):
         undecided=len(undecided),
         known_findings=len(known_hits),
         checker_cmd="bin/check %s --tier %s  (= cargo +nightly rustc -Zunpretty=expanded; tools/extract; %s)" % (pid, tier, " ; ".join(cmds[:3]) + " ; ..."),
-        trusted_base=TRUSTED_BASE,
+        trusted_base=(TRUSTED_BASE if pid in VERUS_PROPS else []) + (KANI_TRUSTED if kinfo else []),
         samples=samples,
-        backends=dict(verus="0.2026.09.13.671956e", smt="Z3 bundled with Verus; --smt-option smt.macro_finder=true for mod nl"),
+        backends=dict(verus="0.2026.09.13.671956e", smt="Z3 bundled with Verus; --smt-option smt.macro_finder=true for mod nl", kani="0.68.0 / CBMC 6.11 (SAT: default minisat/cadical of the bundle)" if kinfo else None),
         functions_under_contract=sum(u["functions_under_contract"] for u in info["units"].values()),
         lemmas=sum(u["lemmas"] for u in info["units"].values()),
         canaries_failed_as_required=sum(u["canaries_failed_as_required"] for u in info["units"].values()),
         units=info["units"],
+        kani=kinfo,
+        bounded=[r["harness"] + ": " + str(r.get("bound")) for r in (kinfo or {}).get("rows", []) if r.get("bound") and not str(r.get("bound")).startswith("none")],
         explanation="obligations = exec functions under contract (mirror equality, definedness preconditions, i32 overflow) + flat non-linear lemmas whose property list contains this id",
         exhaustive=False,
     )
